@@ -11,6 +11,7 @@ Known-bad: `(&mut items).zip(0..n)` polls the user iterator *before* the range, 
 item has been taken that no slot can hold.
 """
 from . import atomics, cfg, symx
+from .facts import operand_place
 
 ZIP = "core::iter::adapters::zip::Zip"
 TAKE = "core::iter::adapters::take::Take"
@@ -87,6 +88,86 @@ def find_calls(e, pred, out):
             find_calls(x, pred, out)
 
 
+def helper_role(F, key):
+    """Role of a private local helper that polls an iterator passed by `&mut`:
+    'takes-checked-item'  - exactly one `next()` on the argument, the result goes through `expect`/`unwrap` and is returned;
+    'asserts-exhausted'   - exactly one `next()` on the argument, and the function returns only along the edge on which that result
+                            was `None` (the other edge diverges);
+    None otherwise."""
+    cache = F.__dict__.setdefault("_iter_helper_roles", {})
+    if key in cache:
+        return cache[key]
+    cache[key] = None
+    b = F.body(key) if key else None
+    if b is None or b["kind"] not in ("Fn", "AssocFn") or not b.get("inputs"):
+        return None
+    it = F.ty(b["inputs"][0])
+    if not (it["k"] == "ref" and it.get("mut")):
+        return None
+    B = cfg.Body(b)
+    nx = [(bi, t) for bi, t in B.calls() if t.get("callee_trait") == ITER and t.get("callee_name") == "next"]
+    users = [(bi, t) for bi, t in B.calls() if t.get("resolved") == "unresolved" or t.get("indirect")]
+    if len(nx) != 1 or len(users) != 1:
+        return None
+    nbi, nt = nx[0]
+    a0 = operand_place(nt["args"][0]) if nt["args"] else None
+    if a0 is None or 1 not in _roots(B, a0["l"], set()):
+        return None
+    rets = [i for i, x in enumerate(b["blocks"]) if x["term"]["k"] == "return"]
+    # takes-checked-item: _0 = expect/unwrap(next(..))
+    o = B.origin_local(0)
+    if o.get("kind") == "call" and atomics.callee_of(o["term"]) in ("<core::option::Option<T>>::expect", "<core::option::Option<T>>::unwrap"):
+        o2 = B.origin(o["term"]["args"][0])
+        if o2.get("kind") == "call" and o2["term"] is nt:
+            cache[key] = "takes-checked-item"
+            return cache[key]
+    # asserts-exhausted: returns only through the None edge of a test on next()'s result
+    for bi, bl in enumerate(b["blocks"]):
+        tt = bl["term"]
+        if tt["k"] != "switch":
+            continue
+        c = B.condition(tt["discr"])
+        none_tgts = None
+        if c and "call" in c and atomics.callee_of(c["call"]) in ("<core::option::Option<T>>::is_none", "<core::option::Option<T>>::is_some"):
+            o3 = B.origin(c["call"]["args"][0], through_refs=True)
+            if o3.get("kind") == "call" and o3["term"] is nt:
+                want = atomics.callee_of(c["call"]).endswith("is_none")
+                none_tgts = [tg for tg, tv in B.switch_truth(tt).items() if (tv != c["neg"]) == want]
+        else:
+            o3 = B.origin(tt["discr"])
+            if o3.get("kind") == "rvalue" and o3["rv"]["k"] == "discr" and not o3["rv"]["place"]["p"]:
+                o4 = B.origin_local(o3["rv"]["place"]["l"])
+                if o4.get("kind") == "call" and o4["term"] is nt:
+                    none_tgts = [tg for v, tg in tt["arms"] if v == 0]
+        if none_tgts is None:
+            continue
+        other = [s_ for s_ in cfg.successors(tt, with_unwind=False) if s_ not in none_tgts]
+        if rets and all(not (B.reach(o_, normal_only=True) & set(rets)) for o_ in other) and any(B.reach(n_, normal_only=True) & set(rets) for n_ in none_tgts):
+            cache[key] = "asserts-exhausted"
+            return cache[key]
+    return None
+
+
+def _roots(B, l, seen):
+    """Argument indices a local derives from (moves, reborrows, casts)."""
+    if l in seen:
+        return set()
+    seen.add(l)
+    if B.is_arg(l) and not B.defs().get(l):
+        return {l}
+    out = set()
+    for d in B.defs().get(l, []):
+        if d[0] == "assign":
+            rv = d[3]
+            if rv["k"] in ("use", "cast"):
+                pl = operand_place(rv["op"])
+                if pl is not None:
+                    out |= _roots(B, pl["l"], seen)
+            elif rv["k"] in ("ref", "rawptr"):
+                out |= _roots(B, rv["place"]["l"], seen)
+    return out
+
+
 def analyse(F, E, b, alloc_len_expr, make_bbs):
     """Returns (violations [(rule-suffix, msg, span)], unsupported [msg], info dict)."""
     B = cfg.Body(b)
@@ -123,9 +204,14 @@ def analyse(F, E, b, alloc_len_expr, make_bbs):
         return None
 
     nexts = []
+    helper_takes = set()
     for bi, t in B.calls():
         if bi in loop and t.get("callee_trait") == ITER and t.get("callee_name") == "next" and t.get("callee_self") is not None:
             nexts.append((bi, t, classify_source(F, t["callee_self"], pname)))
+        elif bi in loop and helper_role(F, atomics.callee_of(t)) == "takes-checked-item" and t.get("arg_tys") and mentions_param(F, t["arg_tys"][0], pname):
+            # `next_reported_item(&mut items)`: one checked `next()` on the user iterator
+            nexts.append((bi, t, ("direct", "through helper")))
+            helper_takes.add(atomics.callee_of(t))
     writes = []
     for bi, t in B.calls():
         if bi in loop and atomics.callee_of(t) in ("core::ptr::write", "<*mut T>::write"):
@@ -193,6 +279,9 @@ def analyse(F, E, b, alloc_len_expr, make_bbs):
     find_calls(ve, lambda e: e[2] in ("expect", "unwrap") and e[1].startswith("<core::option::Option"), checked)
     from_next = []
     find_calls(ve, lambda e: e[2] == "next", from_next)
+    if helper_takes:
+        find_calls(ve, lambda e: e[1] in helper_takes, checked)
+        find_calls(ve, lambda e: e[1] in helper_takes, from_next)
     if not from_next:
         viol.append(("slot-provenance", "the value written into a slot does not come from the iterator's `next()`", wt["span"]))
         return viol, unsup, info
